@@ -5,7 +5,7 @@
 use crate::core::*;
 use crate::gen::{self, fill_bytes};
 use crate::props::c02::{meta, meta_eq, Meta};
-use crate::props::c09::KEYS;
+use crate::props::c09::{key_str, KEYS};
 use crate::refs::amf0::{self as ra, V};
 use crate::refs::msg::RM;
 use crate::sess::*;
@@ -374,8 +374,8 @@ fn eval_inner(case: &Case, clock: &Clock, ex: &mut Exec, age: &mut u64) -> Verdi
         let active_or = |m: &Model| m.active.or(m.last_active).unwrap_or(5);
         let concrete = match op {
             COp::RequestConnection { app } => Concrete::RequestConnection(["live", "app/inst", "x"][*app as usize % 3].to_string()),
-            COp::RequestPlayback { key } => Concrete::RequestPlayback(KEYS[*key as usize % KEYS.len()].to_string()),
-            COp::RequestPublishing { key, kind } => Concrete::RequestPublishing(KEYS[*key as usize % KEYS.len()].to_string(), *kind),
+            COp::RequestPlayback { key } => Concrete::RequestPlayback(key_str(*key % 3)),
+            COp::RequestPublishing { key, kind } => Concrete::RequestPublishing(key_str(*key % 3), *kind),
             COp::StopPlayback => Concrete::StopPlayback,
             COp::StopPublishing => Concrete::StopPublishing,
             COp::PublishMetadata { meta } => Concrete::PublishMetadata(meta.clone()),
@@ -492,7 +492,8 @@ fn eval_inner(case: &Case, clock: &Clock, ex: &mut Exec, age: &mut u64) -> Verdi
                 }
             }
             COp::RequestPlayback { key } | COp::RequestPublishing { key, .. } => {
-                let k = KEYS[*key as usize % KEYS.len()].to_string();
+                let k = key_str(*key % 3);
+                let _ = KEYS;
                 let tx = match op {
                     COp::RequestPublishing { kind, .. } => Tx::CreatePublish(k, *kind % 3),
                     _ => Tx::CreatePlay(k),
